@@ -147,3 +147,16 @@ func init() {
 		Runs: []Run{{Pkg: hp + "c08", Variant: "real"}},
 	}
 }
+
+func init() {
+	specs["C09"] = &Spec{
+		Title: "Key strings round-trip, are canonical, and typos are rejected",
+		Level: "model_checking",
+		LevelText: "Direct bounded-exhaustive enumeration on the real parsers (ParseX25519Recipient/Identity, plugin.ParseRecipient/ParseIdentity, bech32.Decode), each judged two-sidedly against an independent Bech32 reference: every single substitution by every byte value and ~700 multi-byte runes at every position, every double substitution over the charset (1.59e6 per string), deletion/duplication/case flips, all shaped checksum-valid strings (27 HRPs x payload lengths 0..40 x every padding/surplus variant; data parts shorter than the checksum with the checksum solved into the HRP), all strings up to length 6/7 over an 8-symbol alphabet, plugin name x payload round trips. Distance 3 and 4 are decided on a model: the checksum syndrome is linear, so all 3.9e11 patterns of weight <= 4 are decided by meet-in-the-middle over the 1.6e6 weight-2 syndromes; the model is bound to the code by executing every weight <= 2 (thorough: <= 3) pattern on the real decoder.",
+		LevelNote: "the weight-3/4 claim rests on the linear syndrome model of the reference polymod, validated against the implementation on all weight<=2 patterns (traces_validated_against_impl); substitutions in the HRP change the type and are rejected by the prefix check (covered directly at distance 1-2)",
+		Technique: "explicit model (linear BCH syndrome, meet-in-the-middle enumeration of all weight<=4 error patterns) with conformance replay on the implementation, plus bounded-exhaustive string enumeration against an independent reference decoder",
+		Rule: "states = verdict classes of the syndrome model per weight; transitions = weight-2 syndrome sums enumerated; traces_validated_against_impl = substituted strings executed on the real decoder and compared with the model's verdict",
+		Assumptions: commonAssume,
+		Runs: []Run{{Pkg: hp + "c09", Variant: "real"}},
+	}
+}
